@@ -307,8 +307,8 @@ std::string run_case(Src& s, CaseInfo& ci)
     bool is_cut = k < ncuts;
     if (o == O_REJECTED)
       continue;
-    if (!is_cut && o == O_IDENTICAL)
-      continue;  // a rewrite the loader does not depend on (e.g. the unused offset field)
+    if (!is_cut && o == O_IDENTICAL && dmg[k].region >= 600)
+      continue;  // the table's `offset` field is not used by the format (sections follow each other): a rewrite of it changes nothing
     if (is_cut && dmg[k].reloc_cut && (o == O_IDENTICAL || o == O_DIFFERENT || o == 'c') && is_known(SIG_RELOC_CUT))
     {
       reloc_accepted++;
